@@ -1664,6 +1664,12 @@ func S22(rc *RC) {
 	tree := c.Func(fi.Decl)
 	var bad []string
 	acc := 0
+	boolLets := map[string]string{}
+	for _, n := range flatten(tree) {
+		if n.Kind == "let" && strings.HasPrefix(n.Target, "%") && (strings.Contains(n.Value, "IsVector()") || strings.Contains(n.Value, "len($strides)")) {
+			boolLets[n.Target] = n.Value
+		}
+	}
 	var walk func(ns []*ir.Node, loopVar string, guards []string)
 	walk = func(ns []*ir.Node, loopVar string, guards []string) {
 		for _, n := range ns {
@@ -1684,6 +1690,10 @@ func S22(rc *RC) {
 				case "$strides[" + lv + "]":
 				case "$strides[0]":
 					g := strings.Join(guards, " && ")
+					// a guard that is a boolean local stands for its definition
+					for name, def := range boolLets {
+						g = strings.ReplaceAll(g, name, "("+def+")")
+					}
 					if !strings.Contains(g, "$shape.IsVector()") || !strings.Contains(g, "len($strides)") {
 						bad = append(bad, "the shared stride $strides[0] is used outside the one-stride vector case")
 					}
